@@ -55,6 +55,8 @@ SOURCE_OBLIGATIONS = [
     "JanetModel.Props.C06.closed_supervisor_event_skipped",
     "JanetModel.Props.C06.rselect_any_order",
     "JanetModel.Props.C06.close_keeps_items_take_gets_nil",
+    "JanetModel.Props.C06.full_iff_give_waits",
+    "JanetModel.Props.C06.count_capacity_law",
     "JanetModel.Props.C06.current_good",
     "JanetModel.Props.C06.no_lost_wakeup_partial",
 ]
